@@ -169,13 +169,16 @@ def maxAbs : List Rat → Rat
   | t :: r => if rabs t < maxAbs r then maxAbs r else rabs t
 
 /-- Knife edges, where binary64 and exact arithmetic part ways: a vanishing cell-face distance, a half
-    transmissibility that vanishes (IEEE: `1/0 = inf`) or nearly does (below 1e-6 of the largest half
-    transmissibility of the grid — a relative margin, tensors of any magnitude are treated alike), a face
-    without cells, or a harmonic sum `Σ 1/t_half` that cancels (relative margin 1e-6).  The correspondence
-    check skips and counts these inputs; the theorems do not depend on this function. -/
+    transmissibility that vanishes (IEEE: `1/0 = inf`) or nearly does by cancellation
+    (`(d.Kn)^2 <= 1e-12 (d.d)(Kn.Kn)`: a local, scale-free margin, so that strongly graded grids and
+    tensors / lengths of any magnitude are treated alike), a face without cells, or a harmonic sum
+    `Σ 1/t_half` that cancels (relative margin 1e-6).  The correspondence check skips and counts these
+    inputs; the theorems do not depend on this function. -/
 def degenerate (g : Grid) : Bool :=
-  let m := maxAbs (g.hf.map (tHalf g))
-  g.hf.any (fun h => (dvec g h).dot (dvec g h) == 0 || rabs (tHalf g h) * 1000000 ≤ m)
+  g.hf.any (fun h =>
+      let d := dvec g h
+      let kn := (g.perm h.cell).mulVec (V3.smul h.sgn (g.normal h.face))
+      d.dot d == 0 || (d.dot kn) * (d.dot kn) * 1000000000000 ≤ d.dot d * kn.dot kn)
   || (List.range g.nf).any (fun f =>
         (hfOf g f).isEmpty ||
         rabs (sumInv ((hfOf g f).map (tHalf g))) * 1000000 ≤ sumAbsInv ((hfOf g f).map (tHalf g)))
